@@ -166,6 +166,22 @@ theorem sorted_insert {m : AMap α} (hs : Sorted m) (k : Nat) (v : α) : Sorted 
         · rw [hx]; omega
         · exact h1 x hx
 
+/-- in a sorted map a key occurs once: membership determines `find?` -/
+theorem find?_of_mem_sorted {m : AMap α} (hs : Sorted m) {k : Nat} {v : α} (h : (k, v) ∈ m) : m.find? k = some v := by
+  induction m with
+  | nil => simp at h
+  | cons kv rest ih =>
+    obtain ⟨k0, v0⟩ := kv
+    obtain ⟨h1, h2⟩ := sorted_cons.mp hs
+    simp only [List.mem_cons, Prod.mk.injEq] at h
+    simp only [find?]
+    rcases h with ⟨hk, hv⟩ | h
+    · subst hk hv; simp
+    · have := h1 (k, v) h
+      have hne : ¬ k0 = k := by simp at this; omega
+      simp only [hne, ↓reduceIte]
+      exact ih h2 h
+
 theorem sorted_erase {m : AMap α} (hs : Sorted m) (k : Nat) : Sorted (m.erase k) := by
   unfold erase Sorted; exact List.Pairwise.filter _ hs
 
